@@ -23,6 +23,12 @@ class FrameSrc:
         self.hook_at = hook_at
         self.hook = hook
 
+    def reset(self, pattern, tag, hook_at=None, hook=None):
+        """the same source OBJECT carries another stream (as a rewound
+        recorder or a StringDataSource after set_data() does)"""
+        self.__init__(pattern, tag, hook_at, hook)
+        return self
+
     def read(self):
         if self.hook is not None and self.i == self.hook_at:
             h, self.hook = self.hook, None
@@ -110,6 +116,8 @@ class Engine:
                              if T.draw(3) == 0 else -1})
             sc["uses"] = uses
             sc["patterns"] = [C.gen_pattern(T, u["n"]) for u in uses]
+            # every stream arrives through ONE source object (refilled)
+            sc["same_src"] = T.draw(3) == 0
         else:
             sw, ch, sr, bsz = C.gen_format(T, rich=False)
             sc["fmt"] = [sw, ch, sr, bsz]
@@ -157,6 +165,8 @@ class Engine:
             out["probes"]["params_rejected"] = 1
             return None
         keep = []
+        shared = None
+        deferred = []   # (generator requested earlier, its fresh result, ui)
 
         def norm(toks):
             return [(tuple(f[0] for f in t[0]), t[1], t[2]) for t in toks]
@@ -174,16 +184,17 @@ class Engine:
                 pat += [1] + [0] * min(p["init_max_silence"], 2)
             fresh = norm(StreamTokenizer(*args).tokenize(FrameSrc(pat, ui)))
             mode = u["mode"]
-            if mode == "gen_deferred":
-                # (a generator requested at one use and consumed after the
-                # next is two OVERLAPPING uses: whether the state is reset at
-                # the call or at the first next() is not fixed by "reused
-                # ... after"; the generator is consumed at once)
-                mode = "gen_full"
             if ui == len(sc["uses"]) - 1:
-                mode = "list" if mode.startswith("gen_partial") else mode
+                mode = "list" if mode.startswith("gen_partial") \
+                    or mode == "gen_deferred" else mode
             out["steps"] += 1
-            src = FrameSrc(pat, ui)
+            if sc.get("same_src"):
+                if shared is None:
+                    shared = FrameSrc(pat, ui)
+                src = shared.reset(pat, ui)
+                out["faults"]["same_source_object_refilled"] = 1
+            else:
+                src = FrameSrc(pat, ui)
             far = u.get("finalise_at_read", -1)
             if far >= 0 and keep and mode in ("list", "callback",
                                               "gen_full"):
@@ -199,7 +210,22 @@ class Engine:
                     out["faults"]["finalise_suspended_inside_read"] = \
                         out["faults"].get(
                             "finalise_suspended_inside_read", 0) + 1
-                src = FrameSrc(pat, ui, hook_at=far, hook=_finalise_now)
+                if sc.get("same_src"):
+                    src = shared.reset(pat, ui, far, _finalise_now)
+                else:
+                    src = FrameSrc(pat, ui, hook_at=far, hook=_finalise_now)
+            if mode == "gen_deferred":
+                # the generator is REQUESTED now but not started; it is
+                # consumed - in one go - only after the next use of the
+                # tokenizer has run to completion (the pattern
+                # `gens = [tok.tokenize(s, generator=True) for s in streams]`
+                # followed by consuming them one after the other): its run
+                # then is a use "after a complete run"
+                deferred.append((reused.tokenize(FrameSrc(pat, ui),
+                                                 generator=True), fresh, ui))
+                out["faults"]["deferred_generator"] = \
+                    out["faults"].get("deferred_generator", 0) + 1
+                continue
             if mode == "list":
                 got = norm(reused.tokenize(src))
                 want = fresh
@@ -266,6 +292,23 @@ class Engine:
                                     sc["uses"][:ui]]), "C20.1:tokenizer")
             if ui >= 1 and want:
                 out["nontrivial"] = True
+            # consume generators that were requested before this use - only
+            # after a use that ran to completion and when no other generator
+            # is suspended mid-stream (resuming one after reuse is outside
+            # the property)
+            if deferred and mode in ("list", "callback", "gen_full") \
+                    and not keep:
+                for g_, fresh_, ui_ in deferred:
+                    got_ = norm(list(g_))
+                    if got_ != fresh_:
+                        return self._V(
+                            "C20.1", "a generator requested at use %d and "
+                            "consumed after use %d (%s) had completed "
+                            "delivered %r, a fresh tokenizer %r" % (
+                                ui_, ui, mode, [(t[1], t[2]) for t in got_],
+                                [(t[1], t[2]) for t in fresh_]),
+                            "C20.1:deferred_generator")
+                deferred = []
         return None
 
     # ---------------------------------------------------------------- split
